@@ -448,7 +448,7 @@ class InitRun:
         if 'makeConfig' in roles:
             at = F.mk('truthy', self.SET)
             for e in sc:
-                if e.id < roles['makeConfig'].id and list(e.args) == [self.SET] and not e.kwargs and not any(c[0] == 'call' for c in e.ctx):
+                if e.id < roles['makeConfig'].id and list(e.args) == [self.SET] and not e.kwargs and _checks_schemas(self.repo, e.f.a[0]):
                     if F.truth(e.pc, F.Val().set(at, False)) is False and F.truth(e.pc, F.Val().set(at, True)) is True:
                         roles['validate'] = e
                         break
@@ -466,6 +466,15 @@ class InitRun:
         return any(c[0] == 'call' and c[1] in ids for c in ev.ctx)
 
 
+_INIT_RUNS = {}
+
+
+def init_run(repo):
+    if id(repo) not in _INIT_RUNS:
+        _INIT_RUNS[id(repo)] = InitRun(repo)
+    return _INIT_RUNS[id(repo)]
+
+
 def schema_events(repo, validate_fn):
     """the (schema, object) pairs a settings validator checks, in evaluation order: calls of a method of `self` whose first
     argument is a dict `key → type | tuple of types` → [(entries, event)]"""
@@ -474,6 +483,8 @@ def schema_events(repo, validate_fn):
     out = []
     for ev in _self_calls(ex):
         schema = ev.args[0] if ev.args else None
+        if schema is not None and schema.op == 'gv':
+            schema = schema.a[1]            # a module-level constant: its defining expression
         if schema is None or schema.op != 'dict' or len(ev.args) != 2 or ev.kwargs:
             continue
         d = []
@@ -493,6 +504,16 @@ def schema_events(repo, validate_fn):
             d.append((F.kval(k), names))
         out.append((d, ev))
     return out
+
+
+def _checks_schemas(repo, fn):
+    """`fn(self, settings)` validates its argument against at least one schema dict"""
+    if len(fn.node.args.args) != 2:
+        return False
+    try:
+        return bool(schema_events(repo, fn))
+    except (NotRecognised, F.Budget):
+        return True       # it does look at schemas, of a shape we do not understand: the caller will report that
 
 
 def lean_schema(d):
@@ -669,7 +690,7 @@ class AddKeyRun:
         at = F.mk('truthy', SET)
         self.validate = None
         for e in _self_calls(self.ex):
-            if list(e.args) == [SET] and not e.kwargs and not any(c[0] == 'call' for c in e.ctx) \
+            if list(e.args) == [SET] and not e.kwargs and _checks_schemas(repo, e.f.a[0]) \
                     and F.truth(e.pc, F.Val().set(at, False)) is False and F.truth(e.pc, F.Val().set(at, True)) is True:
                 self.validate = e
                 break
@@ -723,11 +744,11 @@ def section(ctx):
 
 
 def body(ctx, emit):
-    repo = F.Repo(ctx.REPO)
+    repo = F.shared_repo(ctx.REPO)
     asrc = (ctx.REPO / 'replicat' / 'utils' / 'adapters.py').read_text()
     atree = ast.parse(asrc)
     rows = adapter_rows(ctx, repo)
-    run = InitRun(repo)
+    run = init_run(repo)
     add = AddKeyRun(repo)
     # fingerprints of the functions the hand-written model mirrors (under the names they have today)
     for nm, f in [('init', run.fn), ('add_key', add.fn), ('_validate_init_settings', run.method('validate')),
@@ -916,8 +937,8 @@ def key_write_calls(repo, func, key_methods):
 
 
 def key_write_facts(ctx):
-    repo = F.Repo(ctx.REPO)
-    run = InitRun(repo)
+    repo = F.shared_repo(ctx.REPO)
+    run = init_run(repo)
     key_methods = {run.method('makeKey'), run.method('instantiateKey')}
     add = repo.func('replicat.repository', 'Repository', 'add_key')
     if add is None:
